@@ -4,6 +4,7 @@ import (
 	"fmt"
 	"os"
 	"path/filepath"
+	"reflect"
 	"strings"
 
 	"github.com/Vedant9500/WTF/internal/config"
@@ -123,10 +124,36 @@ func writePersonalDatabase(dbPath string, commands []database.Command) error {
 		return fmt.Errorf("failed to marshal commands: %w", err)
 	}
 
+	// Some texts (e.g. a field that starts with a line break) are written by the YAML
+	// encoder in a form its decoder cannot read back, or reads back differently.
+	// Never replace the notebook with a file that does not reproduce the entries.
+	var check []database.Command
+	if err := yaml.Unmarshal(data, &check); err != nil || !reflect.DeepEqual(normalizeForCompare(check), normalizeForCompare(commands)) {
+		return fmt.Errorf("command cannot be stored faithfully in the personal database (unsupported text)")
+	}
+
 	err = utils.WriteFileAtomic(dbPath, data, 0644)
 	if err != nil {
 		return fmt.Errorf("failed to write personal database: %w", err)
 	}
 
 	return nil
+}
+
+// normalizeForCompare maps nil and empty slices to the same value and drops the
+// derived cache fields, so that entries can be compared after a YAML round trip.
+func normalizeForCompare(commands []database.Command) []database.Command {
+	out := make([]database.Command, len(commands))
+	for i, c := range commands {
+		out[i] = database.Command{
+			Command:     c.Command,
+			Description: c.Description,
+			Keywords:    append([]string{}, c.Keywords...),
+			Tags:        append([]string{}, c.Tags...),
+			Niche:       c.Niche,
+			Platform:    append([]string{}, c.Platform...),
+			Pipeline:    c.Pipeline,
+		}
+	}
+	return out
 }
